@@ -240,12 +240,15 @@ Notation fic := (fmt_index_cell fmtv ff).
 (* the decision `index_changed or stop_is_different` (None: IndexError / AttributeError) *)
 Definition need_of (m : mlas) : option bool :=
   let l := m_las m in
-  let index := nth 0%nat (l_data l) [] in
+  let index := index_of l in
   let well := l_well l in
   let trw := s_transforms well in
     match m_index_initial m with
     | None => Some true
     | Some ii =>
+        match s_items (l_curves l) with
+        | [] => None                  (* las.index with no curve: IndexError *)
+        | _ :: _ =>
         match rev ii with
         | [] => None
         | lastc :: _ =>
@@ -261,15 +264,18 @@ Definition need_of (m : mlas) : option bool :=
                 Some (negb (cells_equal numeq ii index) || stop_diff)
             end
         end
+        end
     end.
 
 Definition strt_of (index : list cell) : hval := match index with c :: _ => fic c | [] => VNone end.
 Definition stop_of (index : list cell) : hval := match rev index with c :: _ => fic c | [] => VNone end.
+(* two samples or more and different STRT / STOP texts: ff % (second - first), which is "nan"
+   as soon as one of the two is NaN (step_text); else None *)
 Definition step_of (index : list cell) : hval :=
   match index with
-  | CNum a :: CNum b :: _ =>
+  | c0 :: c1 :: _ =>
       if match strt_of index, stop_of index with VStr x, VStr y => str_eqb x y | _, _ => true end then VNone
-      else VStr (fmt_diff ff b a)
+      else step_text fmt_diff ff c0 c1
   | _ => VNone
   end.
 
@@ -281,7 +287,6 @@ Definition set_vals (need : bool) (index : list cell) (nS nP nE : nat) (w : list
 Definition align (u : list N) (nS nP nE : nat) (w : list hitem) : list hitem :=
   upd nE (su u) (upd nP (su u) (upd nS (su u) w)).
 
-Definition index_of (l : las) : list cell := nth 0%nat (l_data l) [].
 Definition c0unit_of (l : las) : list N := match s_items (l_curves l) with c0 :: _ => i_unit c0 | [] => [] end.
 Definition unit_of (l : las) (nS : nat) : list N :=
   match c0unit_of l with
@@ -299,7 +304,7 @@ Definition refresh_result (l : las) (need : bool) (nS nP nE : nat) : las :=
 
 Definition refresh_body (m : mlas) (need : bool) : option las :=
   let l := m_las m in
-  let index := nth 0%nat (l_data l) [] in
+  let index := index_of l in
   let well := l_well l in
   let trw := s_transforms well in
   let set_values (w : list hitem) : option (list hitem) :=
@@ -308,9 +313,9 @@ Definition refresh_body (m : mlas) (need : bool) : option las :=
       let stop := match rev index with c :: _ => fic c | [] => VNone end in
       let step :=
         match index with
-        | CNum a :: CNum b :: _ =>
+        | c0 :: c1 :: _ =>
             if match strt, stop with VStr x, VStr y => str_eqb x y | _, _ => true end then VNone
-            else VStr (fmt_diff ff b a)
+            else step_text fmt_diff ff c0 c1
         | _ => VNone
         end in
       bind (update_first trw (s2l "STRT") (fun it => set_value it strt) w) (fun w1 =>
@@ -566,7 +571,14 @@ Lemma after_well_items :
   s_items (l_well l3) = map hf (align (unit_of l nS) nS nP nE (set_vals need1 (index_of l) nS nP nE w0)).
 Proof. reflexivity. Qed.
 Lemma after_trw : s_transforms (l_well l3) = trw. Proof. reflexivity. Qed.
-Lemma after_index : index_of l3 = index_of l. Proof. reflexivity. Qed.
+Lemma after_curves_shape :
+  s_items (l_curves l3) = match s_items (l_curves l) with c0 :: rest => set_unit c0 (unit_of l nS) :: rest | [] => [] end.
+Proof. reflexivity. Qed.
+Lemma after_index : index_of l3 = index_of l.
+Proof.
+  unfold index_of. rewrite after_curves_shape. change (l_data l3) with (l_data l).
+  destruct (s_items (l_curves l)); reflexivity.
+Qed.
 
 Lemma after_fidx key : fidx trw key (s_items (l_well l3)) = fidx trw key w0.
 Proof. rewrite after_well_items, fidx_map by apply hf_sess. rewrite align_fidx, set_vals_fidx. reflexivity. Qed.
@@ -598,8 +610,9 @@ Lemma after_need n1 :
 Proof.
   unfold need_of. cbn [m_las m_index_initial].
   destruct ii as [iv|]; [|intro H; injection H as <-; eexists; split; [reflexivity|intros _ H; discriminate H]].
+  rewrite after_index, after_curves_shape.
+  destruct (s_items (l_curves l)) as [|c0 crest]; [discriminate|].
   destruct (rev iv) as [|lastc rr]; [discriminate|].
-  change (nth 0%nat (l_data l3) []) with (nth 0%nat (l_data l) []).
   unfold item_value_by. rewrite !sect_find_nth. fold k_stop.
   rewrite after_trw. fold trw. rewrite after_fidx. fold w0. rewrite HP.
   destruct (fidx_match _ _ _ _ HP) as [itP [HnP _]].
